@@ -15,7 +15,7 @@ use std::rc::Rc;
 
 const SIGMA: [&str; 14] = ["a", " ", "\"", "#", "\\", "$", "{", "}", "%", "\n", "\r", "=", "\t", "é"];
 const SPECIAL: [&str; 8] = ["${v}", "%{v}", "\\${v}", "${w}", "a b", "\"a b\"", "a  b", "x=y"];
-const WRAPPERS: [&str; 10] = ["direct", "if", "elseif", "while", "not", "alias-stored", "alias-passed", "function", "alias-of-not", "alias-of-not-stored"];
+const WRAPPERS: [&str; 11] = ["direct", "if", "elseif", "while", "not", "alias-stored", "alias-passed", "function", "alias-of-not", "alias-of-not-stored", "alias-stored-then-refused-redefinition"];
 
 struct Rig {
     ctx: Context,
@@ -63,6 +63,15 @@ impl Rig {
                     "alias al not cap ${v}\nr = al z".to_string()
                 } else {
                     "alias al not cap z ${v}\nr = al".to_string()
+                },
+            ),
+            // a second definition under the same name is refused and must not touch the first
+            10 => (
+                "",
+                if pos == 0 {
+                    "alias al cap ${v}\nrr = alias al cap other\nal z".to_string()
+                } else {
+                    "alias al cap z ${v}\nrr = alias al cap z other\nal".to_string()
                 },
             ),
             _ => ("fn p\ncap ${1} ${2}\nreturn true\nend\n", format!("if p {}\nend", args)),
@@ -249,7 +258,7 @@ pub fn crash_sig(case: &Value, kind: &str) -> String {
     format!("{}:{}:{}", kind, case["wrapper"].as_str().unwrap_or("?"), class_of(case["value"].as_str().unwrap_or("")))
 }
 
-pub const RULE: &str = "values: every string up to the length bound over {a SP \" # \\\\ $ { } % LF CR = TAB e-acute} plus 8 special values (${v}, %{v}, \\\\${v}, ${w}, 'a b', '\"a b\"', 'a  b', x=y), held in a variable and written as ${v} in first or second argument position of a capture command invoked directly, as the condition of if / elseif / while, under not, through an alias that stores the value, through an alias that is passed the value, through a user function used as predicate, and through aliases whose target is `not <predicate>` (value passed or stored); every wrapping line both at the top level of the script and inside the body of a user function that was itself called with two arguments. Oracle: the arguments received through the wrapper equal those received by the direct call. A failing case is classified by whether the received arguments equal what re-serialising the values into a line and parsing/binding it again yields (the recorded defect, one signature per input class) or not (a new violation). Non-trivial: the value contains a character other than plain letters";
+pub const RULE: &str = "values: every string up to the length bound over {a SP \" # \\\\ $ { } % LF CR = TAB e-acute} plus 8 special values (${v}, %{v}, \\\\${v}, ${w}, 'a b', '\"a b\"', 'a  b', x=y), held in a variable and written as ${v} in first or second argument position of a capture command invoked directly, as the condition of if / elseif / while, under not, through an alias that stores the value, through an alias that is passed the value, through a user function used as predicate, through aliases whose target is `not <predicate>` (value passed or stored), and through an alias that stores the value and whose name a second alias definition then tries to take (refused); every wrapping line both at the top level of the script and inside the body of a user function that was itself called with two arguments. Oracle: the arguments received through the wrapper equal those received by the direct call. A failing case is classified by whether the received arguments equal what re-serialising the values into a line and parsing/binding it again yields (the recorded defect, one signature per input class) or not (a new violation). Non-trivial: the value contains a character other than plain letters";
 pub const ASSUMPTIONS: &[&str] = &["the capture command returns true on its first call and false afterwards (so a while loop ends)", "classification of known findings uses the real parser and binder on a transcription of the line building in utils/eval.rs"];
 pub const EXHAUSTIVE: bool = true;
 pub const WALL_CAP_S: (u64, u64) = (55, 1500);
